@@ -258,6 +258,28 @@ def rule_node_types(ctx):
                 text_gate(ctx, "M3", fn, [pt for pt, r in sts], [("%s: `%s` becomes %s only because of the other operand" % (name.split("::")[-1], f, bool(val)), [(needles, want)])], accept_desc="changing `%s`" % f)
             else:
                 ctx.bad("M3", "%s:%s-updated" % (name, f), "%s no longer updates `%s`" % (name, f))
+    # M5: what a field inherits from a hidden child — the type set and the quantity come from the same summary
+    fn = find_fn(ctx, F, "node_types::compute_variable_info_fixed_point", "M5")
+    if fn:
+        import re as _re
+        inh_types = [(pt, _re.findall(r"\)\.(children(?:_without_fields)?)\)\.types", deep_text(fn, c["a"][1], user=False))) for pt, c, d in calls_named(fn, "extend_sorted")
+                     if "field_info" in deep_text(fn, c["a"][0], user=False)]
+        inh_types = [(pt, k[0]) for pt, k in inh_types if k]
+        inh_q = [(pt, _re.findall(r"\)\.(children(?:_without_fields)?)\)\.quantity", deep_text(fn, c["a"][1], user=False))) for pt, c, d in calls_named(fn, "ChildQuantity::append")
+                 if "field_quantit" in deep_text(fn, c["a"][0], user=False)]
+        inh_q = [(pt, k[0]) for pt, k in inh_q if k]
+        if not inh_types or not inh_q:
+            ctx.bad("M5", "compute_variable_info:field-inherits-hidden-child", "compute_variable_info_fixed_point no longer lets a field over a hidden rule inherit that rule's child types and quantity "
+                    "(found %d type and %d quantity inheritance(s))" % (len(inh_types), len(inh_q)))
+        else:
+            kinds_t, kinds_q = {k for _, k in inh_types}, {k for _, k in inh_q}
+            if kinds_t == kinds_q and len(kinds_t) == 1:
+                ctx.ok("M5", "compute_variable_info:field-inherits-hidden-child", "a field over a hidden rule takes both its types and its quantity from the rule's `%s` summary" % next(iter(kinds_t)),
+                       sample={"types": fn.loc(inh_types[0][0]), "quantity": fn.loc(inh_q[0][0])})
+                ctx.before("M5", "compute_variable_info:quantity-with-types", fn, [pt for pt, _ in inh_q], [pt for pt, _ in inh_types], "the quantity is inherited on the same path as the types")
+            else:
+                ctx.bad("M5", "compute_variable_info:field-inherits-hidden-child", "a field over a hidden rule takes its types from `%s` but its quantity from `%s` (%s): nodes listed among the field's types are not counted, "
+                        "so node-types.json claims `multiple: false` (or `required`) for a field that holds several of them" % (sorted(kinds_t), sorted(kinds_q), fn.loc(inh_q[0][0])))
     # M4: a named token that shares its kind with a rule has no children and no fields that are required
     fn = find_fn(ctx, F, "node_types::build_token_entries", "M4")
     if fn:
